@@ -537,7 +537,7 @@ func init() {
 
 func (m *Machine) fresh(nameV Val, kind string, w int, s bool) *Term {
 	name, _ := nameV.(string)
-	vn := fmt.Sprintf("%s!%d", nameSan.ReplaceAllString(name, "_"), len(m.nd))
+	vn := fmt.Sprintf("v_%s!%d", nameSan.ReplaceAllString(name, "_"), len(m.nd))
 	t := mkVar(vn, w, s)
 	m.nd = append(m.nd, NdRec{Name: name, Kind: kind, T: t})
 	return t
